@@ -376,6 +376,7 @@ def jobs_for(tier):
         ('locks:c2:f0p2t2', dict(clients=2, depth=d, faults=0, prolongs=2, timesteps=2)),
         ('locks:c2:f0p0t3', dict(clients=2, depth=d + 1, faults=0, prolongs=0, timesteps=3)),
         ('locks:c2:f1p0t1', dict(clients=2, depth=d + 1, faults=1, prolongs=0, timesteps=1)),
+        ('locks:c1:f0p1t3', dict(clients=1, depth=d + 2, faults=0, prolongs=1, timesteps=3)),
         ('locks:c3:f0p1t1', dict(clients=3, depth=d - 1 if q else d, faults=0, prolongs=1, timesteps=1)),
         ('locks:c2:2locks:f0p1t1', dict(clients=2, locks=('L', 'M'), depth=d - 1 if q else d, faults=0, prolongs=1, timesteps=1)),
     ]
